@@ -5,6 +5,7 @@ package session
 import (
 	"context"
 	"fmt"
+	"io"
 	"net"
 	"runtime"
 	"sort"
@@ -197,17 +198,18 @@ func TestVerifC16SessionManager(t *testing.T) {
 	defer run.Finish()
 	run.Rule("trial = real SessionManager (1 ms cleanup ticker) with M in {0,1,5} accepted net.Pipe connections (some registered as control connections) each with a read loop blocked in ReadPacket x K in {2,4,12} Close callers from a spin barrier x racers subset of {CloseConnection per connection, AcceptConnection of a new connection, parent-cancel}; distinct = (M,K,racers,overlap)")
 	r := run.Rand("trials")
-	n := run.Pick(300, 3000)
+	n := run.Pick(400, 4000)
 	ks := []int{2, 4, 12}
 	run.Floor("overlap_runs", 100)
 	run.Floor("connections_closed_by_close", 100)
+	run.Floor("nonnet_prehandshake_conns_at_close", 100)
 	scope := []string{"tunnox-core/internal/protocol/session", "tunnox-core/internal/stream"}
 	stor := storage.NewMemoryStorage(context.Background())
 	defer stor.Close()
 	idm := idgen.NewIDManager(stor, context.Background())
 	defer idm.Close()
 
-	for trial := 0; trial < n && run.Violations() < 20 && run.Counter("leak_violations") < 3 && run.Counter("close_deadlocks") < 3; trial++ {
+	for trial := 0; trial < n && run.Violations() < 20 && run.Counter("leak_violations") < 3 && run.Counter("close_deadlocks") < 3 && run.Counter("conns_left_open") < 10; trial++ {
 		k := ks[r.Intn(len(ks))]
 		m := []int{0, 1, 5}[r.Intn(3)]
 		withCloseConn := r.Intn(2) == 0
@@ -233,21 +235,39 @@ func TestVerifC16SessionManager(t *testing.T) {
 			far      net.Conn
 			drained  chan error
 			panicked atomic.Value
+			closes   func() int32
+			st       stream.PackageStreamer
+			kind     string
 		}
 		var conns []*cconn
 		var readers sync.WaitGroup
 		setupFailed := false
 		for i := 0; i < m; i++ {
 			near, far := net.Pipe()
-			sc, err := sm.AcceptConnection(near, near)
+			// transport: a net.Conn (TCP-like, RawConn set) or a plain reader/writer/closer
+			// (WebSocket / long-polling style, RawConn nil); either is counted when closed
+			nonNet := r.Intn(2) == 0
+			registered := r.Intn(2) == 0 // else: accepted, handshake not completed (in no registry)
+			var rw io.ReadWriter
+			var closes func() int32
+			if nonNet {
+				t := &c16RW{c: near}
+				rw, closes = t, t.closes.Load
+			} else {
+				t := &c16CountNetConn{Conn: near}
+				rw, closes = t, t.closes.Load
+			}
+			sc, err := sm.AcceptConnection(rw, rw)
 			if err != nil {
 				setupFailed = true
 				break
 			}
-			cc := &cconn{id: sc.ID, far: far}
+			cc := &cconn{id: sc.ID, far: far, closes: closes, st: sc.Stream, kind: fmt.Sprintf("net.Conn=%v|registered=%v", !nonNet, registered)}
 			conns = append(conns, cc)
-			if i%2 == 0 {
+			if registered {
 				sm.RegisterControlConnection(NewControlConnection(sc.ID, sc.Stream, near.RemoteAddr(), "tcp"))
+			} else if nonNet {
+				run.Count("nonnet_prehandshake_conns_at_close", 1)
 			}
 			readers.Add(1)
 			go func(st stream.PackageStreamer) {
@@ -334,15 +354,40 @@ func TestVerifC16SessionManager(t *testing.T) {
 		}
 		// every connection accepted before the race must have been closed by now: its
 		// peer's pending read ends (pipe closed) instead of blocking
-		leftOpen := 0
+		// (decided from the transport's Close counter; the peer's read is corroboration)
+		leftOpen := []string{}
+		writeOK := []string{}
 		for _, cc := range conns {
-			cc.far.SetReadDeadline(time.Now().Add(3 * time.Second))
-			err := <-cc.drained
-			if ne, isNet := err.(net.Error); isNet && ne.Timeout() {
-				leftOpen++
-			} else if err != nil {
+			if cc.closes() >= 1 {
 				run.Count("connections_closed_by_close", 1)
+				cc.far.SetReadDeadline(time.Now().Add(3 * time.Second))
+				<-cc.drained
+			} else {
+				cc.far.SetReadDeadline(time.Now().Add(200 * time.Millisecond))
+				err := <-cc.drained
+				ne, isNet := err.(net.Error)
+				leftOpen = append(leftOpen, fmt.Sprintf("%s|peer_read_still_blocked=%v", cc.kind, isNet && ne.Timeout()))
+				run.Count("conns_left_open", 1)
 			}
+			// later operations fail cleanly: a write on the connection's stream must not succeed
+			if cc.closes() == 0 {
+				// still open: give the write a reader again, or it would block on the pipe
+				cc.far.SetReadDeadline(time.Time{})
+				go func(far net.Conn) {
+					buf := make([]byte, 64)
+					for {
+						if _, err := far.Read(buf); err != nil {
+							return
+						}
+					}
+				}(cc.far)
+			}
+			func() {
+				defer func() { recover() }() // panics are judged by the read/write loops above
+				if _, err := cc.st.WritePacket(&packet.TransferPacket{PacketType: packet.Heartbeat}, false, 0); err == nil && cc.closes() == 0 {
+					writeOK = append(writeOK, cc.kind)
+				}
+			}()
 			cc.far.Close()
 		}
 		if lateFar != nil {
@@ -369,8 +414,8 @@ func TestVerifC16SessionManager(t *testing.T) {
 			run.Count("overlap_runs", 1)
 		}
 		run.Distinct(fmt.Sprintf("M=%d|K=%d|cc=%v|acc=%v|cancel=%v|overlap=%v", m, k, withCloseConn, withAccept, withCancel, maxIn >= 2))
-		if leftOpen > 0 {
-			run.Violation("C16:session|connection-left-open-after-close", map[string]any{"case": desc, "left_open": leftOpen})
+		if len(leftOpen) > 0 {
+			run.Violation("C16:session|connection-left-open-after-close|"+leftOpen[0][:strings.LastIndex(leftOpen[0], "|")], map[string]any{"case": desc, "left_open": leftOpen, "write_still_succeeds_on": writeOK})
 		}
 		for _, cc := range conns {
 			if p := cc.panicked.Load(); p != nil {
@@ -457,3 +502,20 @@ func c16LeakFn(g vk.Goroutine) string {
 	}
 	return fn
 }
+
+// c16RW is a transport that is NOT a net.Conn: reader + writer + closer only.
+type c16RW struct {
+	c      net.Conn
+	closes atomic.Int32
+}
+
+func (t *c16RW) Read(p []byte) (int, error)  { return t.c.Read(p) }
+func (t *c16RW) Write(p []byte) (int, error) { return t.c.Write(p) }
+func (t *c16RW) Close() error                { t.closes.Add(1); return t.c.Close() }
+
+type c16CountNetConn struct {
+	net.Conn
+	closes atomic.Int32
+}
+
+func (t *c16CountNetConn) Close() error { t.closes.Add(1); return t.Conn.Close() }
